@@ -27,6 +27,13 @@ def build(kind, pos, slots):
         L.append("    " + (doc if pos == "field" else "") + s("member") + "a: " + (T if pos == "field" else "int32") + ",")
         L.append("    " + s("sibling") + "b: int32,")
         L.append("}")
+    elif pos in ("op-single", "op-void"):
+        # other producers of IncorrectDocComment on an operation: a named @returns tag on a single unnamed return value, a @returns tag on an operation that returns nothing
+        doc2 = "/// @returns value: x\n" if pos == "op-single" else "/// @returns: nothing at all\n"
+        L.append(s("def") + "interface I {")
+        L.append("    " + doc2 + s("op") + "op(" + s("sibling") + "p: int32, q: bool)" + (" -> int32" if pos == "op-single" else ""))
+        L.append("    " + s("sibling2") + "other()")
+        L.append("}")
     elif pos in ("param", "ret", "op", "iface"):
         L.append((doc if pos == "iface" else "") + s("def") + "interface I {")
         L.append("    " + (doc if pos == "op" else "") + s("op") + "op(" + s("member" if pos == "param" else "sibling") + "p: " + (T if pos == "param" else "int32") + ", q: bool) -> ("
@@ -50,14 +57,14 @@ def build(kind, pos, slots):
 
 
 # which placements enclose (or are) the element concerned, per position
-ENCLOSING = {"field": ["member", "def"], "struct": ["def"], "param": ["member", "op", "def"], "ret": ["member", "op", "def"], "op": ["op", "def"], "iface": ["def"],
+ENCLOSING = {"field": ["member", "def"], "struct": ["def"], "param": ["member", "op", "def"], "ret": ["member", "op", "def"], "op": ["op", "def"], "op-single": ["op", "def"], "op-void": ["op", "def"], "iface": ["def"],
              "efield": ["member", "op", "def"], "enumerator": ["op", "def"], "enum": ["def"], "alias": ["member"], "base": ["member"]}
 SLOTS = {"field": ["def", "member", "sibling"], "struct": ["def", "member", "sibling"], "param": ["def", "op", "member", "sibling", "sibling2"], "ret": ["def", "op", "member", "sibling", "sibling2"],
-         "op": ["def", "op", "sibling", "sibling2"], "iface": ["def", "op", "sibling"], "efield": ["def", "op", "member", "sibling2"], "enumerator": ["def", "op", "sibling", "sibling2"],
+         "op": ["def", "op", "sibling", "sibling2"], "op-single": ["def", "op", "sibling", "sibling2"], "op-void": ["def", "op", "sibling", "sibling2"], "iface": ["def", "op", "sibling"], "efield": ["def", "op", "member", "sibling2"], "enumerator": ["def", "op", "sibling", "sibling2"],
          "enum": ["def", "op", "sibling2"], "alias": ["member", "sibling"], "base": ["member", "op", "sibling", "sibling2"]}
 SCENARIOS = [("Deprecated", p) for p in ("field", "param", "ret", "efield", "alias", "base")] + \
             [(k, p) for k in ("BrokenDocLink", "MalformedDocComment") for p in ("struct", "field", "iface", "op", "enum", "enumerator", "alias")] + \
-            [("IncorrectDocComment", p) for p in ("struct", "field", "iface", "op", "enum", "alias")]
+            [("IncorrectDocComment", p) for p in ("struct", "field", "iface", "op", "op-single", "op-void", "enum", "alias")]
 
 
 def ents_of(files_sx):
